@@ -7,6 +7,7 @@
    not only over trees reachable through the API. *)
 From Coq Require Import ZArith List Bool.
 From BT Require Import Model.RTree Model.TreeSpec Model.Range Proofs.RangeProofs.
+From BT Require Import Model.TreeSpec Model.Persist Model.Chain Proofs.ChainWalkProofs.
 Import ListNotations.
 Open Scope Z_scope.
 
@@ -69,3 +70,24 @@ Example C02_example :
   c_minkey Z t (Some 10) = Some 11 /\ py_minkey Z t (Some 10) = Some 11 /\
   c_maxkey Z t (Some 10) = Some 9 /\ py_maxkey Z t (Some 10) = Some 9.
 Proof. vm_compute. repeat split. Qed.
+
+(* Model/Range.v describes the C range search and the finger of a lazy sequence
+   by POSITIONS (leaf index, offset) in the in-order leaf sequence, where the
+   code follows pointers: firstbucket, current->next, PreviousBucket(current,
+   firstbucket), BTree_lastBucket.  On the pointer heap of Model/Chain.v --
+   which every history of public calls keeps in step with the tree
+   (C03_chain_calls) -- those walks are exactly position 0, position + 1,
+   position - 1 and the last position. *)
+Theorem C02_pointer_walks : forall (V : Type) (ml mi : nat),
+  (1 <= ml)%nat -> (2 <= mi)%nat ->
+  forall (t : tree V) (h : Chain.heap),
+  Inv V ml mi t -> NoDup (ids V t) -> Chain.chain_ok V h t ->
+  let l := Persist.leaf_ids V t in
+  Chain.fb h (tid V t) = nth_error l 0 /\
+  (forall j x, nth_error l j = Some x -> Chain.nx h x = nth_error l (S j)) /\
+  (forall j x y f, nth_error l 0 = Some f -> nth_error l j = Some x -> nth_error l (S j) = Some y ->
+                   Chain.prev_bucket (length l) h f y = Some x) /\
+  (forall f, nth_error l 0 = Some f -> Chain.prev_bucket (length l) h f f = None) /\
+  (l <> [] -> nth_error l (length l - 1) = Some (last_leaf_id V t)).
+Proof. exact ChainWalkProofs.pointer_walks_are_positions. Qed.
+Print Assumptions C02_pointer_walks.
